@@ -221,6 +221,11 @@ class Adapter(EnvAdapter):
             passable = shelves == 0                       # a loaded robot cannot enter shelf cells
             if requested:
                 targets = {goals[ag % len(goals)]} if sync else set(goals)
+                if sync:                                    # leave the other goal cell to the other agents
+                    passable = passable.copy()
+                    for g in goals:
+                        if g not in targets:
+                            passable[g] = False
             else:                                           # bring it back to a free slot
                 targets = set(map(tuple, np.argwhere((~highways) & (shelves == 0))))
                 if not highways[p]:
@@ -254,7 +259,8 @@ class Adapter(EnvAdapter):
         shelves, car, queue, goals = w[0], w[4], w[5], w[7]
         loaded = [bool(car[j]) and (int(shelves[int(pos[j][0]), int(pos[j][1])]) - 1) in queue for j in range(na)]
         plan = [self._goal_action(j, w, set(), sync) for j in range(na)] if sync else None
-        ready = [sync and loaded[j] and plan[j][0] == FORWARD and plan[j][1] in goals for j in range(na)]
+        ready = [sync and loaded[j] and plan[j][0] == FORWARD and plan[j][1] == goals[j % len(goals)]
+                 for j in range(na)]
         occupied = {(int(pos[j][0]), int(pos[j][1])) for j in range(na)}
         reserved, claimed = set(), set()
         act = np.zeros(na, dtype=env.action_spec.dtype)
